@@ -1,5 +1,6 @@
 import PlumVerif.Props.C14
 import PlumVerif.Proofs.ReaderChunks
+import PlumVerif.Proofs.ReaderSched
 /-
 C14, "never waits for more than the maximum frame size", on the resumable reader
 (`Model/ReaderChunks`): in EVERY suspension of every call, whatever bytes arrived in whatever
@@ -52,6 +53,17 @@ theorem wakes_when_demand_met (st st' : RState) (buf b more : List Byte)
     simp only [RState.demand] at hmore
     simp only [List.length_append] at hlt
     omega
+
+/-- **every interleaving of arrivals and reader runs** (`Model/ReaderSched`): in whatever state the
+system is after ANY schedule, if the reader's next run leaves its call suspended, that suspension
+demands at least one byte and at most what is left of 1000 after the bytes taken since the start
+delimiter and the bytes waiting in the buffer -/
+theorem every_interleaving_demand_bounded (cs : List (List Byte)) (ms : List Move) (st' : RState) (b : List Byte)
+    (h : resume ((Sys.init cs).run ms).st ((Sys.init cs).run ms).buf = .blocked st' b) :
+    1 ≤ st'.demand b.length ∧ st'.demand b.length ≤ 1000 - (st'.taken + b.length) := by
+  have hok : ((Sys.init cs).run ms).st.ok := sys_ok_run ms (s := Sys.init cs) trivial
+  have := resume_blocked_bounded hok h
+  omega
 
 /-- non-vacuity and sharpness: a header announcing 1000 bytes; after the header the call waits
 for 993 bytes with nothing buffered (7 + 0 + 993 = 1000); with 992 of them buffered for 1 more -/
